@@ -6,8 +6,8 @@
 package paths
 
 import (
-	"go/constant"
 	"fmt"
+	"go/constant"
 	"go/ast"
 	"go/token"
 	"go/types"
@@ -345,6 +345,32 @@ func (e *enumerator) cond(c ast.Expr, p Path, depth int, k func(p Path, val bool
 	if c == nil {
 		k(p, true)
 		return
+	}
+	// a boolean local whose value this path fixed at its definition (VALUE event)
+	{
+		x, neg := ast.Unparen(c), false
+		for {
+			u, ok := x.(*ast.UnaryExpr)
+			if !ok || u.Op != token.NOT {
+				break
+			}
+			x, neg = ast.Unparen(u.X), !neg
+		}
+		if id, ok := x.(*ast.Ident); ok {
+			for i := len(p) - 1; i >= 0; i-- {
+				if p[i].Kind != "VALUE" {
+					continue
+				}
+				if p[i].Arg == id.Name+"=true" {
+					k(p, !neg)
+					return
+				}
+				if p[i].Arg == id.Name+"=false" {
+					k(p, neg)
+					return
+				}
+			}
+		}
 	}
 	if e.c.Expand != nil {
 		c = e.c.Expand(c)
@@ -708,8 +734,113 @@ func (e *enumerator) stmt(s ast.Stmt, p Path, depth int, k kont) {
 			k(p, "")
 			return
 		}
+		// a boolean local holding a test whose operands are assigned again before the local is tested
+		// (opens := x.first == 0; if opens { x.first = t }; switch { case opens: … }): the test is
+		// decided here, at its definition, and the local carries that outcome (a VALUE event the later
+		// tests of the local read back) instead of being re-read where it is used
+		if as, ok := s.(*ast.AssignStmt); ok {
+			if flag := e.hazardFlag(as); flag != nil {
+				e.events(s, p, depth, func(p2 Path) {
+					e.cond(as.Rhs[0], p2, depth, func(p3 Path, val bool) {
+						k(append(p3, Event{Kind: "VALUE", Arg: fmt.Sprintf("%s=%v", flag.Name(), val), Pos: as.Pos(), Node: as.Lhs[0]}), "")
+					})
+				})
+				return
+			}
+		}
 		e.events(s, p, depth, func(p2 Path) { k(p2, "") })
 	}
+}
+
+// hazardFlag: as is `b := <comparison / logical expression without calls>` (or b = …) for a boolean
+// local b, and some location the expression reads is assigned, inside the bodies being walked, after
+// this statement and before a later use of b. Returns b, else nil.
+func (e *enumerator) hazardFlag(as *ast.AssignStmt) *types.Var {
+	if e.c.Info == nil || len(as.Lhs) != 1 || len(as.Rhs) != 1 || (as.Tok != token.DEFINE && as.Tok != token.ASSIGN) {
+		return nil
+	}
+	id, ok := as.Lhs[0].(*ast.Ident)
+	if !ok {
+		return nil
+	}
+	v, ok := e.c.Info.ObjectOf(id).(*types.Var)
+	if !ok || v.IsField() {
+		return nil
+	}
+	if b, ok := v.Type().Underlying().(*types.Basic); !ok || b.Kind() != types.Bool {
+		return nil
+	}
+	rhs := ast.Unparen(as.Rhs[0])
+	switch x := rhs.(type) {
+	case *ast.BinaryExpr:
+		_ = x
+	case *ast.UnaryExpr:
+		if x.Op != token.NOT {
+			return nil
+		}
+	default:
+		return nil
+	}
+	// what the expression reads: selector texts and local identifiers; no calls
+	reads := map[string]bool{}
+	pure := true
+	ast.Inspect(rhs, func(n ast.Node) bool {
+		switch x := n.(type) {
+		case *ast.CallExpr:
+			if tv, ok := e.c.Info.Types[x.Fun]; !ok || !tv.IsType() {
+				if fid, isId := x.Fun.(*ast.Ident); !isId || fid.Name != "len" {
+					pure = false
+				}
+			}
+		case *ast.SelectorExpr:
+			reads[types.ExprString(x)] = true
+			return false
+		case *ast.Ident:
+			if o, ok := e.c.Info.ObjectOf(x).(*types.Var); ok && !o.IsField() {
+				reads[x.Name] = true
+			}
+		}
+		return true
+	})
+	if !pure || len(reads) == 0 {
+		return nil
+	}
+	hazard := false
+	for _, root := range e.roots {
+		var lastUse token.Pos
+		ast.Inspect(root, func(n ast.Node) bool {
+			if uid, ok := n.(*ast.Ident); ok && uid.Pos() > as.End() && e.c.Info.ObjectOf(uid) == types.Object(v) {
+				if uid.Pos() > lastUse {
+					lastUse = uid.Pos()
+				}
+			}
+			return true
+		})
+		if !lastUse.IsValid() {
+			continue
+		}
+		ast.Inspect(root, func(n ast.Node) bool {
+			switch w := n.(type) {
+			case *ast.AssignStmt:
+				if w.Pos() > as.End() && w.Pos() < lastUse {
+					for _, l := range w.Lhs {
+						if reads[types.ExprString(ast.Unparen(l))] {
+							hazard = true
+						}
+					}
+				}
+			case *ast.IncDecStmt:
+				if w.Pos() > as.End() && w.Pos() < lastUse && reads[types.ExprString(ast.Unparen(w.X))] {
+					hazard = true
+				}
+			}
+			return true
+		})
+	}
+	if !hazard {
+		return nil
+	}
+	return v
 }
 
 // Consistent reports whether the path's recorded condition outcomes do not contradict each other
